@@ -197,8 +197,16 @@ class DIMSEMessage(object):
         # The message is encoded now; only the fragmentation is lazy. The returned generator is
         # consumed later by the provider thread, by which time the caller may already have changed
         # this object (service providers reuse one response object for several responses).
-        encoded_command_set = dsutils.encode(self.command_set, True, True)
         data_set = self.data_set
+        if data_set and not isinstance(data_set, bytes):
+            # A file-like data set with nothing left to read yields no data-set fragment: the
+            # command set must then say "no data set", or the peer waits for one that never comes
+            if data_set.read(1):
+                data_set.seek(-1, 1)
+            else:
+                data_set.close()
+                self.data_set = data_set = None  # the setter makes the command set say so
+        encoded_command_set = dsutils.encode(self.command_set, True, True)
         return self._fragments(encoded_command_set, data_set, pc_id, max_pdu_length)
 
     @staticmethod
